@@ -29,7 +29,7 @@ META = {
     "bounds": {"quick": "L1: all code points 0..0x2FF on 2/3-character windows, count windows of 6; L2: ~700 generated skeletons (depth <= 2, "
                         "<= 3 terms per group, elements from an adjacency-critical set of 10, all bracket kinds, hydrates, charges, prefixes, "
                         "suffixes, primes), numerals arbitrary positive reals / integers; L3: strings of length <= 4",
-               "thorough": "L2: ~6000 skeletons (depth <= 3, <= 4 terms)"},
+               "thorough": "L2: ~42000 skeletons (depth <= 3, <= 4 terms)"},
     "assumptions": [
         "stubs: chempy.util.parsing.float / .int are injected so that every numeral token denotes a z3 variable (lexing of digits is L1/L3)",
         "elements in skeletons are representatives; that every one of the 118 symbols tokenises correctly in every adjacency is L1",
@@ -582,7 +582,7 @@ def task_lexing(tier, only):
 
 def tasks(tier, seed):
     ts = [dict(id="C01.L1.tokens", fn="task_tokens", kwargs={}, timeout=900)]
-    n, depth, width = (700, 2, 3) if tier == "quick" else (6000, 3, 4)
+    n, depth, width = (700, 2, 3) if tier == "quick" else (42000, 3, 4)
     nt = 14
     for i in range(nt):
         ts.append(dict(id="C01.L2.skeletons.%02d" % i, fn="task_skeletons", kwargs=dict(seed=seed * 1000 + i, n=n // nt, depth=depth, width=width),
